@@ -23,6 +23,7 @@ type Job struct {
 	FailExpr string `json:"fail_expr"` // a.E(id) returns an error
 	Cancel   bool   `json:"cancel"`    // context cancelled before Render
 	BufSize  int    `json:"buf_size"`  // runtime.DefaultBufferSize for this process (first job decides)
+	FlushErr bool   `json:"flush_err"` // the writer has a Flush() error method that fails
 }
 
 type Result struct {
@@ -34,12 +35,19 @@ type Result struct {
 	IsWriter bool     `json:"is_writer"` // errors.Is(err, ErrWriter)
 	IsExpr   bool     `json:"is_expr"`
 	IsCancel bool     `json:"is_cancel"`
+	IsFlush  bool     `json:"is_flush"`
 	ErrFile  string   `json:"err_file"`
 	ErrLine  int      `json:"err_line"`
 	Panic    string   `json:"panic"`
 }
 
 var ErrWriter = errors.New("writer failed")
+var ErrFlush = errors.New("flush failed")
+
+// flushWriter adds a failing Flush() error method (what templ.Flush calls).
+type flushWriter struct{ *faultWriter }
+
+func (w flushWriter) Flush() error { return ErrFlush }
 
 type faultWriter struct {
 	buf    bytes.Buffer
@@ -86,8 +94,13 @@ func RenderJob(reg map[string]func(*A) templ.Component, j Job) (res Result) {
 		res.HTML = w.buf.String()
 		res.Log = a.Log
 	}()
-	err := f(&a).Render(ctx, w)
+	var target io.Writer = w
+	if j.FlushErr {
+		target = flushWriter{w}
+	}
+	err := f(&a).Render(ctx, target)
 	if err != nil {
+		res.IsFlush = errors.Is(err, ErrFlush)
 		res.Err = err.Error()
 		res.IsWriter = errors.Is(err, ErrWriter)
 		res.IsExpr = errors.Is(err, ErrExpr)
